@@ -25,7 +25,7 @@ func profile(name string) c3.Profile {
 func main() {
 	hx.Main("C02", func(e *hx.Env) *hx.Report {
 		r := hx.NewReport("C02", e.Tier, e.Seed, c3.Rule)
-		mon := plugin.Monitors(c3.MonitorC02, c3.MonitorStored)
+		mon := plugin.Monitors(c3.MonitorDefaults, c3.MonitorC02, c3.MonitorStored)
 		if e.Replay != "" {
 			c3.RunFile(e, r, e.Replay, mon, false)
 			return r
